@@ -722,7 +722,7 @@ def handleEnd (ds : DS) (j : Json) : IO DS := do
         ds ← finding ds "diverge" "C09" "state:end:validator-updates" s!"model=[{StakingD.showUpd (Staking.updates ds.view tgt)}] impl=[{StakingD.showUpd vu}]"
     else ds := stat ds "sit.c09.tie_at_the_cut"
     ds := { ds with view := view' }
-    for x in StakingD.poolProblems ds.stk do ds ← finding ds "monitor" "C09,C01" "staking_pools_hold_the_stake" x
+    for x in StakingD.poolProblems ds.stk do ds ← finding ds "monitor" "C09,C01,C08" "staking_pools_hold_the_stake" x
     -- unbondings and redelegations whose time has come are completed; the others stay
     let due := Staking.matured ds.t preStk.ubds
     if !due.isEmpty then ds := stat ds "sit.c09.unbondings_matured"
